@@ -18,6 +18,8 @@ Step == /\ j < Len(C.events)
                                  THEN {"writable_view_of_tables"} ELSE {})
                            \cup (IF \E i \in 1..Len(ev.arrays) : ev.arrays[i].wrote = 1 /\ ev.arrays[i].writeable = 0
                                  THEN {"readonly_flag_not_enforced"} ELSE {})
+                           \* an array that could be written to must have been a copy: the same call still returns the original values
+                           \cup (IF ev.refetch_same = 0 THEN {"write_visible_in_later_call:" \o ev.call} ELSE {})
         /\ j' = j + 1 /\ k' = k
 NextCase == j = Len(C.events) /\ k < Len(Cases) /\ k' = k + 1 /\ j' = 0 /\ tables' = Cases[k + 1].digest0 /\ bad' = {}
 Next == Step \/ NextCase
